@@ -1,7 +1,7 @@
 """C15 - f_zip / f_sequence / f_traverse keep positions and propagate the first failure."""
 import itertools
 import json
-from concurrent.futures import Future
+from concurrent.futures import CancelledError, Future
 
 from harness import runner
 from harness.env import SpyFuture
@@ -35,10 +35,12 @@ def gen(rng, tier):
     for i in range(n):
         ins.append({"end": rng.choice(["val", "val", "val", "val", "exc", "cancel", "never"]) if not big else "val",
                     "at": rng.choice([None, 0, 0, 0.05, 0.1]), "by": rng.randrange(3),
-                    "lib": (not big) and rng.random() < 0.2})
+                    "lib": (not big) and rng.random() < 0.2, "cerr": (not big) and rng.random() < 0.15})
     spec = {"comb": comb, "ins": ins, "dup": (rng.randrange(n), rng.randrange(n)) if n >= 2 and rng.random() < 0.2 and not big else None,
             "gen_input": rng.random() < 0.5, "fn_raise_at": rng.choice([None, None, None, 0, 1, 2]) if comb == "traverse" else None,
-            "cancel_at": rng.choice([None, None, None, 0, 0.05]), "settle": 5.0}
+            "cancel_at": rng.choice([None, None, None, 0, 0.05]), "settle": 5.0,
+            # the class of the exception fn raises: StopIteration / CancelledError / ... are exceptions like any other
+            "fn_raise_cls": rng.choice(["ScriptedError", "ScriptedError", "ErrStop", "ErrCancelled", "ErrKey"])}
     spec["sim"] = runner.draw_sim_cfg(rng, est=300, line_ok=not big)
     spec["sim"]["horizon_s"] = 5000
     if big:
@@ -58,7 +60,8 @@ def run(spec, env):
         if inp["end"] == "val":
             results[i] = ["r", i]
         elif inp["end"] == "exc":
-            results[i] = env.exc(("in", i))
+            # (an input that FAILED WITH a CancelledError instance is failed, not cancelled)
+            results[i] = CancelledError() if inp.get("cerr") else env.exc(("in", i))
     env.objs["results"] = results
 
     def complete(i):
@@ -99,7 +102,7 @@ def run(spec, env):
                 fn_calls.append(k)
                 env.rec("fn", k)
                 if spec["fn_raise_at"] == k:
-                    raise env.exc(("fn", k))
+                    raise env.exc(("fn", k), spec.get("fn_raise_cls", "ScriptedError"))
                 return args[k]
             xs = (k for k in range(len(args))) if spec["gen_input"] else list(range(len(args)))
             out = F.f_traverse(fn, xs)
